@@ -245,7 +245,7 @@ def run(tier: str, seed: int, t0: float) -> int:
                        ("mapping_append_mapping", 10), ("mapping_append_mapping_inverted", 10),
                        ("mapping_slice", 10), ("mapping_invert", 5), ("mapping_append_mirror", 5)):
         if stats.counts.get(key, 0) < least:
-            raise core.MachineryError(f"vacuity gate: {key}={stats.counts.get(key, 0)} < {least}")
+            core.vacuity(out, f"vacuity gate: {key}={stats.counts.get(key, 0)} < {least}")
     stats.exhaustive = True
     stats.bounds = {"map_ranges_M": maxr, "map_sizes": maxs, "map_ranges_G": gr, "mapping_ops": maxops}
     return core.finish("C08", tier, seed, stats, out, t0,
